@@ -9,8 +9,8 @@ scratch directory of canary files; decorators of fgFileMgr / fgNetAccessor and t
 open, fetch and offer, which must equal the specification's ordered log; verdict, number of entity-reference starts and
 delivered text must equal the specification's.
 
-Sizes (quick): Resources 384 configurations x 80 document shapes = 30 720 parses; EntityExpansion 32 448 (definitions, document,
-limit) cases x 3 sites x 2 scanners = 194 688 parses.
+Sizes (quick): Resources 384 configurations x 80 document shapes = 30 720 parses; EntityExpansion 8 112 (definitions, document,
+limit) cases x 3 sites x 2 scanners = 48 672 parses.
 
 As coded and modelled so (allowed by the property): the resolver gets the system id AS WRITTEN plus the base URI; the base of an
 entity is that of its DECLARATION; external parameter entities are fetched whenever the subset naming them is processed; schema
